@@ -31,7 +31,7 @@ def run(tier, seed):
               EX.ExcelModel.compile_cell, EX.ExcelModel.finish)
     ck.assume('the workbook is a real .xlsx file written by the harness with openpyxl (two sheets referring to each other, whole-column and whole-row references, a defined name, a two-cell array formula, cells reading its spilled cell alone or inside a larger rectangle, and a second workbook whose sheet has the same title but fewer used rows); two constants and the set of requested outputs are boolean selectors; every path loads the file twice (fully, and from the chosen outputs) and calculates natively',
               'completing and finishing the partial model again must leave its node set and its results unchanged')
-    ck.out_of_scope('output sets other than the listed ones (20 single outputs, 15 chosen combinations, and in the thorough tier a seeded sample up to 128 sets)', 'whole-column references beyond the few listed paths (the library assembles all 1048576 cells of the column: 10 s and several GB per model)', 'workbooks other than the harness template',
+    ck.out_of_scope('output sets other than the listed ones (20 single outputs, 15 chosen combinations, and in the thorough tier a seeded sample up to 64 sets)', 'whole-column references beyond the few listed paths (the library assembles all 1048576 cells of the column: 10 s and several GB per model)', 'workbooks other than the harness template',
                     'symbolic contents (openpyxl / schedula cannot carry symbolic values)')
     ck.check_known_witness('C15-defined-name-as-requested-output', NAME_WITNESS)
     quick = tier == 'quick'
@@ -44,16 +44,16 @@ def run(tier, seed):
     if not quick:
         import random
         rnd = random.Random(seed)
-        while len(masks) < 128:
+        while len(masks) < 64:
             m = rnd.getrandbits(nout + 1)
             if m & (ORDER - 1) and m not in masks:
                 masks.append(m)
-    groups = 4 if quick else 8
+    groups = 4
     both = 2 | (1 << 13)
     colmasks = ((both, both | ORDER) if quick else (2, 1 << 13, both, both | ORDER)) + (() if quick else ((1 << nout) - 1, ((1 << nout) - 1) | ORDER, 2 | 1 << 9, both | 64))
     hs, batch = [], Batch()
     try:
-        for a in ((0, 4) if quick else range(8)):
+        for a in ((0, 4) if quick else (0, 1, 4, 6)):
             for g in range(groups):
                 mg = tuple(masks[g::groups])
                 s = src.replace('__FIX_A__', str(a)).replace('__MASKS__', repr(mg)).replace('__WHOLE__', 'row')
